@@ -168,22 +168,32 @@ func runWorker(a *aggT, s wspec, tier string, seed uint64, deadline int64, sites
 	}
 }
 
-// raceSummary extracts the two conflicting source locations of the first report.
+// raceSummary extracts the two conflicting accesses of the first report: kind
+// of access and the innermost frame that is not in package runtime.
 func raceSummary(txt string) string {
 	var locs []string
 	lines := strings.Split(txt, "\n")
 	for i, l := range lines {
 		t := strings.TrimSpace(l)
-		if (strings.HasPrefix(t, "Write at") || strings.HasPrefix(t, "Read at") || strings.HasPrefix(t, "Previous write at") || strings.HasPrefix(t, "Previous read at")) && i+2 < len(lines) {
-			fn := strings.TrimSpace(lines[i+1])
-			if j := strings.Index(fn, "("); j > 0 {
-				fn = fn[:j]
-			}
-			if j := strings.LastIndex(fn, "/"); j >= 0 {
-				fn = fn[j+1:]
-			}
-			locs = append(locs, strings.Fields(t)[0]+" "+fn)
+		if !(strings.HasPrefix(t, "Write at") || strings.HasPrefix(t, "Read at") || strings.HasPrefix(t, "Previous write at") || strings.HasPrefix(t, "Previous read at")) {
+			continue
 		}
+		fn := "?"
+		for j := i + 1; j < len(lines) && strings.TrimSpace(lines[j]) != ""; j += 2 {
+			f := strings.TrimSpace(lines[j])
+			if k := strings.Index(f, "("); k > 0 {
+				f = f[:k]
+			}
+			if k := strings.LastIndex(f, "/"); k >= 0 {
+				f = f[k+1:]
+			}
+			fn = f
+			if !strings.HasPrefix(f, "runtime.") {
+				break
+			}
+		}
+		kind := strings.ToLower(strings.Fields(strings.TrimPrefix(t, "Previous "))[0])
+		locs = append(locs, kind+" in "+fn)
 		if len(locs) == 2 {
 			break
 		}
@@ -191,6 +201,7 @@ func raceSummary(txt string) string {
 	if len(locs) == 0 {
 		return "data race (no locations parsed)"
 	}
+	sort.Strings(locs)
 	return strings.Join(locs, " vs ")
 }
 
